@@ -27,7 +27,7 @@ func buildTool(name string) (string, error) {
 	cmd := exec.Command("go", "build", "-o", bin+".tmp", "./cmd/"+name)
 	cmd.Dir = engine.VerifDir
 	cmd.Env = engine.GoEnv()
-	if out, err := cmd.CombinedOutput(); err != nil {
+	if out, err := engine.RunLocked(cmd); err != nil {
 		return "", fmt.Errorf("building %s against %s failed:\n%s", name, engine.RepoDir, out)
 	}
 	return bin, os.Rename(bin+".tmp", bin)
